@@ -27,6 +27,8 @@ import (
 	"unicode/utf16"
 	"unicode/utf8"
 
+	xhtml "golang.org/x/net/html"
+
 	"github.com/gotd/td/telegram/message/entity"
 	"github.com/gotd/td/telegram/message/html"
 	"github.com/gotd/td/telegram/message/markdown"
@@ -138,6 +140,78 @@ func facts(f *hc.Facts) {
 	gen := map[string]bool{}
 	for _, m := range genM {
 		gen[m] = true
+	}
+	// --- the tag → formatter table of htmlParser.startTag (clauses that are exactly `e.format = entity.X()`)
+	strConst := map[string]string{}
+	for _, af := range parseDir(f.Repo, htmlDir) {
+		for _, d := range af.Decls {
+			gd, ok := d.(*ast.GenDecl)
+			if !ok || gd.Tok != token.CONST {
+				continue
+			}
+			for _, sp := range gd.Specs {
+				vs := sp.(*ast.ValueSpec)
+				for i, n := range vs.Names {
+					if i < len(vs.Values) {
+						if lit, ok := vs.Values[i].(*ast.BasicLit); ok && lit.Kind == token.STRING {
+							if v, err := strconv.Unquote(lit.Value); err == nil {
+								strConst[n.Name] = v
+							}
+						}
+					}
+				}
+			}
+		}
+	}
+	var rows, complexTags []string
+	tableOK := false
+	if fd := f.FuncDecl(htmlDir, "htmlParser.startTag"); fd != nil && fd.Body != nil {
+		ast.Inspect(fd.Body, func(n ast.Node) bool {
+			sw, ok := n.(*ast.SwitchStmt)
+			if !ok || strings.Join(strings.Fields(f.Src(sw.Tag)), "") != "e.tag" {
+				return true
+			}
+			tableOK = true
+			for _, cl := range sw.Body.List {
+				cc := cl.(*ast.CaseClause)
+				var labels []string
+				for _, l := range cc.List {
+					switch l := l.(type) {
+					case *ast.BasicLit:
+						if v, err := strconv.Unquote(l.Value); err == nil {
+							labels = append(labels, v)
+						}
+					case *ast.Ident:
+						if v, ok := strConst[l.Name]; ok {
+							labels = append(labels, v)
+						} else {
+							tableOK = false
+						}
+					}
+				}
+				ctor := ""
+				if len(cc.Body) == 1 {
+					src := strings.Join(strings.Fields(f.Src(cc.Body[0])), " ")
+					if strings.HasPrefix(src, "e.format = entity.") && strings.HasSuffix(src, "()") {
+						ctor = strings.TrimSuffix(strings.TrimPrefix(src, "e.format = entity."), "()")
+					}
+				}
+				for _, l := range labels {
+					if ctor != "" {
+						rows = append(rows, "("+strconv.Quote(l)+", "+strconv.Quote(ctor)+")")
+					} else {
+						complexTags = append(complexTags, l)
+					}
+				}
+			}
+			return false
+		})
+	}
+	if tableOK {
+		f.Raw("def simpleTags : List (String × String) := [" + strings.Join(rows, ", ") + "] -- htmlParser.startTag: case label → entity constructor, for clauses that are exactly `e.format = entity.X()`")
+		f.Raw("def complexTags : List String := " + leanList(complexTags) + " -- case labels of startTag with more logic (attributes, nesting)")
+	} else {
+		f.Missing("simpleTags", "switch e.tag in htmlParser.startTag not found or has unresolvable labels")
 	}
 	// --- which of them the two parsers call (by method name: an over-approximation)
 	for _, p := range []struct{ lean, dir string }{{"htmlCalls", htmlDir}, {"mdCalls", mdDir}} {
@@ -651,6 +725,78 @@ func run(c *hc.Ctx) error {
 		impls = append(impls, ok)
 		_ = input
 	}
+	// ---- parser control logic on documents WITHOUT attributes (model: TdModel/Model/C37Html.lean):
+	// the real tokenizer's token stream is handed to the model, which predicts text and entities
+	plainTags := []string{"b", "strong", "i", "em", "u", "ins", "s", "strike", "del", "tg-spoiler", "code", "pre", "blockquote", "span", "tg-emoji", "tg-time", "p", "div", "x", "B", "Code"}
+	for i := 0; i < c.N(15000, 300000); i++ {
+		var doc []byte
+		var open []string
+		for k := hc.Pick(r, 1, 2, 3, 4, 6, 8, 12); k > 0; k-- {
+			switch r.Intn(8) {
+			case 0, 1, 2:
+				t := hc.Pick(r, plainTags...)
+				doc = append(doc, "<"+t+">"...)
+				open = append(open, t)
+			case 3, 4:
+				switch {
+				case len(open) > 0 && r.Chance(75):
+					doc = append(doc, "</"+open[len(open)-1]+">"...)
+					open = open[:len(open)-1]
+				case r.Chance(40):
+					doc = append(doc, "</>"...)
+					if len(open) > 0 {
+						open = open[:len(open)-1]
+					}
+				default:
+					doc = append(doc, "</"+hc.Pick(r, plainTags...)+">"...)
+				}
+			default:
+				doc = append(doc, hc.Pick(r, "x", "ab", " ", "  ", "\n", "😀", "é", "\u3000", "&lt;", "&amp;", "&#128512;", "&", "a b  ")...)
+			}
+		}
+		if r.Chance(75) {
+			for len(open) > 0 {
+				doc = append(doc, "</"+open[len(open)-1]+">"...)
+				open = open[:len(open)-1]
+			}
+		}
+		// token stream of the real tokenizer, dispatched as htmlParser.parse does
+		var toks []string
+		tz := xhtml.NewTokenizer(bytes.NewReader(doc))
+		for done := false; !done; {
+			switch tz.Next() {
+			case xhtml.ErrorToken:
+				done = true
+			case xhtml.TextToken:
+				txt := html.VerifC37TelegramUnescape(append([]byte{}, tz.Raw()...))
+				toks = append(toks, "X:"+cps(strings.ToValidUTF8(string(txt), "\uFFFD")))
+			case xhtml.StartTagToken:
+				tn, _ := tz.TagName()
+				toks = append(toks, "S:"+hc.Hex(tn))
+			case xhtml.EndTagToken:
+				tn, _ := tz.TagName()
+				toks = append(toks, "E:"+hc.Hex(tn))
+			case xhtml.CommentToken:
+				if raw := tz.Raw(); len(raw) >= 3 && string(raw[:2]) == "</" && raw[len(raw)-1] == '>' {
+					toks = append(toks, "C")
+				}
+			}
+		}
+		input := "html " + hc.Hex(doc)
+		o := parseOne("html", doc, false)
+		c.Eval(input, o.err == nil && len(o.ents) > 0)
+		c.Count("html.no-attributes")
+		if o.panic != nil || o.cpanic != nil {
+			c.Fail("parser-panic", input, fmt.Sprintf("%v %v", o.panic, o.cpanic))
+			continue
+		}
+		lines = append(lines, "htmltoks "+strings.Join(toks, " "))
+		if o.err != nil {
+			impls = append(impls, "err")
+		} else {
+			impls = append(impls, cps(o.msg)+" "+canon(showEnts(o.ents)))
+		}
+	}
 	// ---- telegramUnescape on character-reference soups (model: TdModel/Model/C37Unescape.lean)
 	refPieces := []string{"&", "&&", "&;", "&#", "&#;", "&#x", "&#X", "&#x;", "&lt", "&lt;", "&gt;", "&amp;", "&amp", "&quot;", "&quot", "&LT;", "&ltx;", "&l", "&laquo;",
 		"&#0;", "&#1;", "&#5", "&#5;", "&#55", "&#55;", "&#128512;", "&#x1F600;", "&#X1f600", "&#xD800;", "&#55296;", "&#1114110;", "&#1114111;", "&#1114112;", "&#x10FFFE;", "&#x10ffff;",
@@ -699,7 +845,7 @@ func run(c *hc.Ctx) error {
 		return err
 	}
 	for i, o := range outs {
-		if strings.HasPrefix(lines[i], "run ") {
+		if strings.HasPrefix(lines[i], "run ") || (strings.HasPrefix(lines[i], "htmltoks ") && o != "err") {
 			if p := strings.SplitN(o, " ", 2); len(p) == 2 && p[1] != "-" {
 				o = p[0] + " " + canon(strings.Split(p[1], ","))
 			}
